@@ -24,7 +24,7 @@ from harness.peer import Peer, REQ_HEADERS
 from harness.svc import RawCodec, Service
 from harness.wire import MemTransport
 
-LIVELOCK_LIMIT = 200000
+LIVELOCK_LIMIT = 1000        # a legitimate segment has at most len/16384 + 2 iterations per sender
 
 
 class Livelock(Exception):
